@@ -502,9 +502,12 @@ def main():
     run.obligation("T0_translator", "interpreter == CPython on the suite's brine input and boundary values", translator_validation(run, interp))
     run.obligation("O1_roundtrip_leaves", "load(dump(v)) is v (type-exact) for every leaf kind, all length classes",
                    ob_roundtrip(run, interp, 0, 0, True, "leaves"))
-    d, a = (2, 2) if thorough else (1, 2)
+    d, a = (1, 3) if thorough else (1, 2)
     run.obligation("O2_roundtrip_nested", "round trip and dumpable()/dump() agreement for nested values incl. non-plain members",
                    ob_roundtrip(run, interp, d, a, True, "nested"))
+    if thorough:
+        # nesting 2 with arity 2 is several million paths; the thorough tier widens (arity 3) and deepens (nesting 2, arity 1) separately
+        run.obligation("O2_roundtrip_deep", "the same for nesting depth 2 (containers of one element)", ob_roundtrip(run, interp, 2, 1, True, "deep"))
     run.obligation("O3_tuple_headers", "tuple header classes 5..255 and 256+", ob_tuple_headers(run, interp))
     run.obligation("O4_decode_bounded", "load() of arbitrary bytes raises or yields a plain value; no foreign callee",
                    ob_decode_bounded(run, interp, 4 if thorough else 3, 3))
